@@ -331,7 +331,9 @@ func (p *Printer) binop(d *doc, v BinOp, col int) {
 		}
 		d.sub(operand(cur, false))
 		for _, st := range stages {
-			switch p.choose("pipe-break", 4) {
+			// 4-6: a blank, a comment-only or a blanks-only line between the head of the pipeline and the line
+			// that begins with |> (blank lines and comments may be added anywhere between lines)
+			switch p.choose("pipe-break", 7) {
 			case 0:
 				d.add(" ")
 			case 1:
@@ -340,6 +342,16 @@ func (p *Printer) binop(d *doc, v BinOp, col int) {
 				d.newline(col + 2)
 			case 3:
 				d.newline(col + 4)
+			case 4:
+				d.newline(0)
+				d.newline(col)
+			case 5:
+				d.newline(col)
+				d.add("// c")
+				d.newline(col + 2)
+			case 6:
+				d.newline(col + 3)
+				d.newline(col)
 			}
 			d.add("|> ")
 			d.sub(func(c int) []string {
